@@ -71,6 +71,7 @@ inductive Expr where
   | lam (params : List String) (body : Expr)
   | try_ (e : Expr)
   | unwrap (e : Expr)
+  | panic (msg : Expr)
 inductive Stmt where
   | let_ (p : Pat) (e : Expr)
   | assign (x : String) (op : AsgOp) (e : Expr)
@@ -405,6 +406,24 @@ def setIndex (s : St) (va vi v : Val) : Res Val :=
   | _, _ => .stuck "index"
 
 
+/-- `e?`: the payload of `some`/`ok`; otherwise the enclosing function returns `none` / the `err` -/
+def tryVal (v : Val) (s : St) : Res Val :=
+  match v with
+  | .variant "some" [x] => .ok x s
+  | .variant "none" [] => .sig (.ret (.variant "none" [])) s
+  | .variant "ok" [x] => .ok x s
+  | .variant "err" [x] => .sig (.ret (.variant "err" [x])) s
+  | _ => .stuck "try"
+
+/-- `e!`: the payload of `some`/`ok`; otherwise the program stops with a panic error -/
+def unwrapVal (v : Val) (s : St) : Res Val :=
+  match v with
+  | .variant "some" [x] => .ok x s
+  | .variant "none" [] => .sig (.err .panic) s
+  | .variant "ok" [x] => .ok x s
+  | .variant "err" [_] => .sig (.err .panic) s
+  | _ => .stuck "unwrap"
+
 def assignVar (s : St) (x : String) (v : Val) : Res Val :=
   match update s.env x v with
   | some env => .ok .unit { s with env := env }
@@ -539,22 +558,13 @@ def evalE : Nat → Prog → St → Expr → Res Val
             | some env => callBody n P s2 env body
           | _ => .stuck "call of non-function"
     | .lam ps body => .ok (.clo ps body s.env) s
-    | .try_ a =>
+    | .try_ a => (evalE n P s a).bind fun v s1 => tryVal v s1
+    | .unwrap a => (evalE n P s a).bind fun v s1 => unwrapVal v s1
+    | .panic a =>
       (evalE n P s a).bind fun v s1 =>
         match v with
-        | .variant "some" [x] => .ok x s1
-        | .variant "none" [] => .sig (.ret (.variant "none" [])) s1
-        | .variant "ok" [x] => .ok x s1
-        | .variant "err" [x] => .sig (.ret (.variant "err" [x])) s1
-        | _ => .stuck "try"
-    | .unwrap a =>
-      (evalE n P s a).bind fun v s1 =>
-        match v with
-        | .variant "some" [x] => .ok x s1
-        | .variant "none" [] => .sig (.err .panic) s1
-        | .variant "ok" [x] => .ok x s1
-        | .variant "err" [_] => .sig (.err .panic) s1
-        | _ => .stuck "unwrap"
+        | .str _ => .sig (.err .panic) s1
+        | _ => .stuck "panic"
 
 /-- run a function body in its own environment; `return` is caught here -/
 def callBody : Nat → Prog → St → Env → Expr → Res Val
